@@ -277,33 +277,52 @@ theorem subsystem_total_enabled (numThreads : Nat) (mode : Mode) (all : List (MF
 
 /-! ### executor / task class as state: the order of `setNumberOfThreads` and `realizeTopology` -/
 
-/-- right after `realizeTopology` the executor and the task class fit together, whatever happened before
-(any number of `setNumberOfThreads` calls, earlier topology realizations) -/
-theorem threadSafe_after_topology (st : SubState) (hp : Bool) :
-    ThreadSafe (st.apply (.realizeTopology hp)) = true := by
-  cases hp <;> simp [SubState.apply, ThreadSafe]
+/-- **every reachable state of the current subsystem is thread safe**: whatever sequence of `setNumberOfThreads` and
+`realizeTopology` calls is issued (before, after, in between), the non-parallel task is never paired with an
+executor of two or more threads. -/
+theorem threadSafe_reachable (ncpu : Nat) (ops : List SubOp) :
+    ThreadSafe (ops.foldl SubState.apply (SubState.init ncpu)) = true := by
+  have key : ∀ (ops : List SubOp) (st : SubState), ThreadSafe st = true → ThreadSafe (ops.foldl SubState.apply st) = true := by
+    intro ops
+    induction ops with
+    | nil => intro st h; exact h
+    | cons op ops ih =>
+      intro st h
+      apply ih
+      cases op with
+      | setNumberOfThreads n =>
+        simp only [SubState.apply, ThreadSafe] at h ⊢
+        by_cases ht : st.task = some false
+        · simp [ht]
+        · simp [ht]
+      | realizeTopology hp => cases hp <;> simp [SubState.apply, ThreadSafe]
+  exact key ops _ (by simp [SubState.init, ThreadSafe])
 
-/-- … and the state reached is the one `configSubsystem` assumes: threads passed through `effectiveThreads` -/
-theorem state_after_set_then_topology (st : SubState) (n : Nat) (hp : Bool) :
-    (st.apply (.setNumberOfThreads n)).apply (.realizeTopology hp) = ⟨effectiveThreads n hp, hp⟩ := by
-  cases hp <;> simp [SubState.apply, effectiveThreads]
+/-- threads configured before `realizeTopology` give the state `configSubsystem` assumes -/
+theorem state_after_set_then_topology (ncpu n : Nat) (hp : Bool) :
+    ((SubState.init ncpu).apply (.setNumberOfThreads n)).apply (.realizeTopology hp) = ⟨effectiveThreads n hp, some hp⟩ := by
+  cases hp <;> simp [SubState.apply, SubState.init, effectiveThreads]
 
-/-- FINDING (threads set AFTER topology): `setNumberOfThreads` replaces the executor without looking at the task
-class and without invalidating the topology cache, so a subsystem without parallel forces ends up running the
-non-thread-safe `CalcForcesNonParallelTask` on `n ≥ 2` workers: the state is not `ThreadSafe`. -/
-theorem threads_after_topology_unsafe (ncpu n : Nat) (hn : 2 ≤ n) :
-    ThreadSafe (((SubState.init ncpu).apply (.realizeTopology false)).apply (.setNumberOfThreads n)) = false := by
-  simp [SubState.apply, SubState.init, ThreadSafe]; omega
+/-- HISTORICAL FINDING (threads set AFTER topology, code before /repo e709610d): the old `setNumberOfThreads`
+replaced the executor without looking at the task class, so a subsystem without parallel forces ended up running
+the non-thread-safe `CalcForcesNonParallelTask` on `n ≥ 2` workers — a reachable state that is not `ThreadSafe`;
+the current transition keeps one thread there. -/
+theorem threads_after_topology_unsafe_old (ncpu n : Nat) (hn : 2 ≤ n) :
+    ThreadSafe (((SubState.init ncpu).applyOld (.realizeTopology false)).applyOld (.setNumberOfThreads n)) = false ∧
+    (((SubState.init ncpu).apply (.realizeTopology false)).apply (.setNumberOfThreads n)).execThreads = 1 := by
+  constructor
+  · simp [SubState.applyOld, SubState.init, ThreadSafe]; omega
+  · simp [SubState.apply, SubState.init]
 
-/-- what goes wrong then (member accumulators shared by the workers): with two workers and one force adding
-200000, one interleaving counts it twice, another loses it (`NPT` mini-model, see the model file). -/
+/-- what went wrong in that state (member accumulators shared by the workers): with two workers and one force
+adding 200000, one interleaving counts it twice, another loses it (`NPT` mini-model, see the model file). -/
 theorem nonparallel_task_two_workers_wrong :
     (NPT.run 200000 NPT.init [1, 0, 0, 0, 1, 1]).shared = 400000 ∧
     (NPT.run 200000 NPT.init [0, 0, 1, 0, 1, 1]).shared = 0 ∧
     (NPT.run 200000 NPT.init [0, 0, 0, 1, 1, 1]).shared = 200000 := by decide
 
 theorem configOfState_eq (st : SubState) (mode : Mode) (all : List (MForce M))
-    (ht : st.taskParallel = subsystemHasParallel all) :
+    (ht : st.task = some (subsystemHasParallel all)) :
     configOfState st mode all = configCurrent st.execThreads mode (enabledElts all) := by
   simp only [configOfState, configV, taskDirectV, Bool.false_eq_true, if_false]
   congr 1
@@ -315,19 +334,20 @@ theorem configOfState_eq (st : SubState) (mode : Mode) (all : List (MForce M))
   by_cases hk : k = 0
   · subst hk; simp
   · simp only [hk, if_false]
-    rw [ht]
+    have ht' : st.taskParallel = subsystemHasParallel all := by
+      simp only [SubState.taskParallel, ht]; cases subsystemHasParallel all <;> rfl
+    rw [ht']
     cases hp : subsystemHasParallel all
     · simp only [Bool.false_eq_true, if_false]
       simp [taskLocalV, hk, filter_parallel_enabled_nil all hp]
     · simp
 
 /-- total = Σ over the enabled forces for every schedule, in ANY subsystem state in which the task class was chosen
-by the last `realizeTopology` (`taskParallel = subsystemHasParallel all`) and which is `ThreadSafe`.  `ThreadSafe`
-is the validity condition of the model (thread-local accumulators): it holds after every `realizeTopology`
-(`threadSafe_after_topology`) and fails when `setNumberOfThreads(n ≥ 2)` follows the topology realization of a
-subsystem without parallel forces (`threads_after_topology_unsafe`) — there the real code is wrong. -/
+by the last `realizeTopology` (`task = some (subsystemHasParallel all)`) and which is `ThreadSafe`.  `ThreadSafe` is
+the validity condition of the model (thread-local accumulators); by `threadSafe_reachable` it holds in every state the
+current code can reach, so thread counts set before topology, after it, or changed between realizations are covered. -/
 theorem subsystem_total_enabled_of_state (st : SubState) (_hs : ThreadSafe st = true) (mode : Mode) (all : List (MForce M))
-    (ht : st.taskParallel = subsystemHasParallel all) (shared0 : M) (sched : List Nat)
+    (ht : st.task = some (subsystemHasParallel all)) (shared0 : M) (sched : List Nat)
     (hc : Complete (configOfState st mode all) (run (configOfState st mode all) (init shared0) sched)) :
     RaceFree (configOfState st mode all) shared0 sched ∧
     (run (configOfState st mode all) (init shared0) sched).shared = shared0 + serialSum mode (enabledElts all) := by
